@@ -130,6 +130,20 @@ func (idx Index) getQuery(keyPrefix []byte) []byte {
 	return b
 }
 
+// prefixSuccessor returns the smallest key that is greater than every key
+// having the prefix, or nil if there is no such key.
+func prefixSuccessor(prefix []byte) []byte {
+	for i := len(prefix) - 1; i >= 0; i-- {
+		if prefix[i] != 0xff {
+			k := make([]byte, i+1)
+			copy(k, prefix)
+			k[i]++
+			return k
+		}
+	}
+	return nil
+}
+
 // FetchCollection fetches a collection of resource references based on the query.
 func (iq *IndexQuery) FetchCollection(db *badger.DB) ([]res.Ref, error) {
 	offset := iq.Offset
@@ -164,7 +178,18 @@ func (iq *IndexQuery) FetchCollection(db *badger.DB) ([]res.Ref, error) {
 		opts.Reverse = iq.Reverse
 		it := txn.NewIterator(opts)
 		defer it.Close()
-		for it.Seek(queryPrefix); it.ValidForPrefix(queryPrefix); it.Next() {
+		if iq.Reverse {
+			// A reverse iterator seeks to the largest key less than or equal
+			// to the seek key. Seek to the smallest key greater than every key
+			// with the prefix, and step past that key in case it exists.
+			it.Seek(prefixSuccessor(queryPrefix))
+			if it.Valid() && !it.ValidForPrefix(queryPrefix) {
+				it.Next()
+			}
+		} else {
+			it.Seek(queryPrefix)
+		}
+		for ; it.ValidForPrefix(queryPrefix); it.Next() {
 			k := it.Item().Key()
 			idx := bytes.LastIndexByte(k, ridSeparator)
 			if idx < 0 {
